@@ -1692,7 +1692,10 @@ impl<E: Effect> Environment<E> {
         // Convert type_aliases HashMap to a single scope for resolution
         let mut bindings = std::collections::HashMap::new();
         for (name, type_alias) in type_aliases {
-            bindings.insert(name.clone(), Binding::TypeAlias(type_alias.clone()));
+            bindings.insert(
+                quiver_compiler::compiler::type_alias_key(name),
+                Binding::TypeAlias(type_alias.clone()),
+            );
         }
         let scope = Scope::new(bindings, None, ScopeKind::Root);
         let scopes = vec![scope];
